@@ -527,5 +527,20 @@ PROPS["C10"]["rules"] = PROPS["C10"]["rules"] + [rules_sd.rule_handle_numrecs_gu
 PROPS["C10"]["explanation"] += " (UNLIMSIZE2) the SD functions read the file-wide record count only for netCDF files; an unlimited dimension's scale is read with the variable's own count."
 PROPS["C03"]["rules"] = PROPS["C03"]["rules"] + [rules_sd.rule_handle_numrecs_guarded]
 
+PROPS["C02"]["rules"] = PROPS["C02"]["rules"] + [rules_dd.rule_descriptor_offset_block]
+PROPS["C02"]["explanation"] += " (OWNBLOCK) a descriptor's position on disk is computed from the offset of its own DD block."
+PROPS["C12"]["rules"] = PROPS["C12"]["rules"] + [rules_dd.rule_descriptor_offset_block]
+
+PROPS["C02"]["rules"] = PROPS["C02"]["rules"] + [rules_cache.rule_chunk_header_length]
+PROPS["C02"]["explanation"] += " (HDRLEN) the header length HMCcreate stores reduces to the same linear expression for compressed and uncompressed chunked elements."
+
+PROPS["C04"]["rules"] = PROPS["C04"]["rules"] + [rules_gr.rule_interlace_direction]
+PROPS["C04"]["explanation"] += " (ILDIR) whole-chunk and whole-image GR access convert between pixel interlace and the same application-side interlace (requested on reads, creation interlace on writes)."
+PROPS["C09"]["rules"] = PROPS["C09"]["rules"] + [rules_gr.rule_interlace_direction]
+
+PROPS["C03"]["rules"] = PROPS["C03"]["rules"] + [rules_sd.rule_piecewise_loop_clamped]
+PROPS["C03"]["explanation"] += " (PIECECLAMP) the piecewise fill loops re-clamp the piece size to what remains."
+PROPS["C04"]["rules"] = PROPS["C04"]["rules"] + [rules_sd.rule_piecewise_loop_clamped]
+
 NOT_APPLICABLE = {}
 
